@@ -7,12 +7,15 @@ package main
 // op line:   <stream> \t <label> \t once=<ids> \t max=<n> \t forms=<f,...> \t <source>
 // go result: <sx> @@ <obs interp> @@ <obs vm> @@ <obs vmopt>
 //   sx  = S-expression of the *checked program the runtime parsed* (internal/sx), or `oof:<reason>`
-//         when a node lies outside the model's fragment, or `reject:<kind>` when parse/check failed
-//   obs = <outcome>|<log;log;…>   (internal/lang.Observation)
+//         when a node lies outside the model's fragment (`oof:<reason>#unboxed-cond` when the program
+//         contains a conditional expression as the left operand of `??` or the target of `?.`, the shape
+//         of the known finding conditional-result-not-boxed), or `reject:<kind>` when parse/check failed
+//   obs = <outcome>|<log;log;…>   (internal/lang.Observation), or `hang|` when the engine did not come back
 
 import (
 	"strconv"
 	"strings"
+	"time"
 
 	"verif/harness/internal/hx"
 	"verif/harness/internal/lang"
@@ -22,10 +25,20 @@ import (
 func genLang(c *hx.Ctx, stream, profile string) {
 	for i := 0; i < c.N; i++ {
 		var p *lang.Prog
-		if profile == "values" && i%2 == 1 {
-			p = lang.GenerateL0(c.Rng.Fork()) // layer L0: also compiled and run by the model compiler + VM
-		} else {
-			p = lang.Generate(c.Rng.Fork(), profile)
+		r := c.Rng.Fork()
+		switch {
+		case profile == "values" && i%2 == 1:
+			// layer L0: unwrapped programs are also compiled and run by the model compiler + VM;
+			// a third has its body in a closure / inner function (the only code the peephole pass reaches)
+			p = lang.GenerateL0Wrapped(r, lang.PickWrap(r.Fork(), 34))
+		case profile == "values" && i%6 == 0:
+			p = lang.GenerateIter(r) // iteration + mutation of containers, nested over the same container
+		case profile == "values" && i%6 == 2:
+			p = lang.GenerateClosurePeephole(r) // declined / rewritten peephole windows in front of jumps, in closures
+		case profile == "values":
+			p = lang.GenerateWrapped(r, profile, lang.PickWrap(r.Fork(), 50))
+		default:
+			p = lang.GenerateWrapped(r, profile, lang.PickWrap(r.Fork(), 25))
 		}
 		ids := make([]string, len(p.Once))
 		for j, id := range p.Once {
@@ -44,15 +57,41 @@ func execLang(op []string) string {
 		sxs = "reject:" + firstKind(err)
 	} else if s, err := sx.Program(prog); err != nil {
 		sxs = "oof:" + strings.TrimPrefix(err.Error(), "out-of-fragment:")
+		if sx.HasUnboxedCond(prog) {
+			sxs += "#unboxed-cond" // shape of the known finding conditional-result-not-boxed (see Drv/Lang.lean)
+		}
 	} else {
 		sxs = s
 	}
 	parts := []string{sxs}
 	for _, m := range []lang.Mode{lang.Interp, lang.VM, lang.VMPeephole} {
-		parts = append(parts, lang.Observation(lang.Run(src, m)))
+		parts = append(parts, runBounded(src, m))
 	}
 	return strings.Join(parts, " @@ ")
 }
+
+// runBounded: every run has the computation limit of lang.Run; an engine that still does not come back
+// (a compiled loop that never reaches a metered instruction) is reported as `hang|` for that engine
+// alone, so that the comparison of the three observations names it.
+func runBounded(src string, m lang.Mode) string {
+	done := make(chan string, 1)
+	go func() {
+		defer func() {
+			if r := recover(); r != nil {
+				done <- "crash:escaped-panic|"
+			}
+		}()
+		done <- lang.Observation(lang.Run(src, m))
+	}()
+	select {
+	case o := <-done:
+		return o
+	case <-time.After(langEngineTimeout):
+		return "hang|"
+	}
+}
+
+const langEngineTimeout = 15 * time.Second
 
 func firstKind(err error) string {
 	s := err.Error()
